@@ -88,6 +88,7 @@ fn main() {
                 "file" => gen3::gen_file(&mut rng, n, thorough),
                 "bigfile" => gen3::gen_bigfile(&mut rng, n, thorough),
                 "prefix" => gen3::gen_prefix(&mut rng, n, thorough),
+                "sweep" => gen3::gen_sweep(&mut rng, n, thorough),
                 _ => {
                     eprintln!("unknown stream {}", stream);
                     std::process::exit(2);
